@@ -1711,3 +1711,284 @@ Lemma failing_ok :
   view_at (fst (run0 cfg_fixed os_failing)) [b "r"; b "w"; b "t"; b "d"; b "f"] = VFile (enc 7 420) 0%N /\
   view_at (fst (run0 cfg_fixed os_failing)) [b "r"; b "w"; b "u"; b "d"] = VDir 320%N 0%N.
 Proof. vm_compute. repeat split. Qed.
+
+(* ---------- a working directory that does not exist yet (the first push creates it) ---------- *)
+
+Record Inv0 (wd : path) (f : fsys) : Prop := mkInv0 {
+  inv0_ne : wd <> [];
+  inv0_anc : RealD f [] (removelast wd);
+  inv0_none : forall p, inside wd p = true -> lookup f p = None;
+  inv0_fresh : forall p i, lookup f p = Some (NFile i) -> i < nexti f
+}.
+
+Definition PreInv (wd : path) (f : fsys) : Prop := Inv wd f \/ Inv0 wd f.
+Definition Keeps0 (wd : path) (f f' : fsys) : Prop := PreInv wd f' /\ same_outside wd f f'.
+
+Lemma Keeps0_refl wd f : PreInv wd f -> Keeps0 wd f f.
+Proof. intro H. split; [exact H | apply same_outside_refl]. Qed.
+
+Lemma Keeps_Keeps0 wd f f' : Keeps wd f f' -> Keeps0 wd f f'.
+Proof. intros [I S]. split; [now left | exact S]. Qed.
+
+Lemma Keeps0_trans wd f g h : Keeps0 wd f g -> Keeps0 wd g h -> Keeps0 wd f h.
+Proof. intros [_ A] [I B]. split; [exact I | eapply same_outside_trans; eauto]. Qed.
+
+Lemma wd_snoc (wd : path) : wd <> [] -> wd = removelast wd ++ [last wd []].
+Proof. intro H. now apply app_removelast_last. Qed.
+
+(* creating the working directory *)
+Lemma create_wd wd f m : Inv0 wd f -> Keeps wd f (new_dir wd m f).
+Proof.
+  intros I0. unfold new_dir. split.
+  - constructor.
+    + intros q r E Hq. rewrite lookup_setdmode, lookup_set. destruct (path_eqb wd q) eqn:Eq; [reflexivity|].
+      destruct r as [|x r'] using rev_ind.
+      * rewrite app_nil_r in E. subst q. rewrite path_eqb_refl in Eq. discriminate.
+      * apply (inv0_anc _ _ I0 q r'); [|exact Hq]. rewrite app_assoc in E.
+        rewrite (wd_snoc wd (inv0_ne _ _ I0)) in E at 1. apply app_inj_tail in E as [E _]. exact E.
+    + intros p q i. rewrite !lookup_setdmode, !lookup_set.
+      destruct (path_eqb wd p); [discriminate|]. intros Lp _ Hp. rewrite (inv0_none _ _ I0 p Hp) in Lp. discriminate.
+    + intros p i. rewrite lookup_setdmode, lookup_set. destruct (path_eqb wd p); [discriminate|].
+      apply (inv0_fresh _ _ I0).
+  - intros q Hq. unfold view_at. rewrite lookup_setdmode, lookup_set.
+    rewrite (outside_neq wd wd q (inside_refl wd) Hq).
+    destruct (lookup f q) as [[|j|]|]; try reflexivity.
+    unfold dir_mode, set_dmode, set_ent; simpl. rewrite (outside_neq wd wd q (inside_refl wd) Hq). reflexivity.
+Qed.
+
+(* os.MkdirAll over existing directories, then one missing last element *)
+Lemma mkdir_prefixes_skip f mo : forall t1 d t2,
+  RealD f [] (d ++ t1) ->
+  mkdir_prefixes f (Nms d) (Nms (t1 ++ t2)) mo = mkdir_prefixes f (Nms (d ++ t1)) (Nms t2) mo \/
+  mkdir_prefixes f (Nms d) (Nms (t1 ++ t2)) mo = None.
+Proof.
+  induction t1 as [|c t1 IH]; intros d t2 HR.
+  - left. now rewrite app_nil_r.
+  - cbn [app Nms map mkdir_prefixes]. fold (Nms (t1 ++ t2)). rewrite Nms_snoc.
+    assert (HR1 : RealD f [] (d ++ [c])).
+    { apply (RealD_prefix f (d ++ [c]) t1). now rewrite <- app_assoc. }
+    pose proof (walk_real f (d ++ [c]) FUEL NLINK [] true HR1) as W1.
+    pose proof (walk_real f (d ++ [c]) FUEL NLINK [] false HR1) as W2.
+    destruct (walk FUEL f NLINK [] (Nms (d ++ [c])) true); try contradiction.
+    + specialize (IH (d ++ [c]) t2). rewrite <- !app_assoc in IH. simpl in IH. apply IH. exact HR.
+    + right. destruct (walk FUEL f NLINK [] (Nms (d ++ [c])) false); try contradiction; reflexivity.
+Qed.
+
+Lemma walk_at_none f : forall ns fuel nl cur follow,
+  lexreal f cur ns = true -> ns <> [] -> lookup f (cur ++ ns) = None ->
+  match walk fuel f nl cur (Nms ns) follow with
+  | WNoEnt p => p = cur ++ ns
+  | WErrNoEnt => True
+  | WErr => True
+  | _ => False
+  end.
+Proof.
+  induction ns as [|c r IH]; intros fuel nl cur follow HL Hne Ln; [contradiction|].
+  destruct fuel as [|fuel]; [exact Logic.I|]. simpl. simpl in HL.
+  destruct r as [|c2 r'].
+  - rewrite Ln. reflexivity.
+  - destruct (lookup f (cur ++ [c])) as [[|i|d a cs]|] eqn:L; try exact Logic.I; try discriminate.
+    specialize (IH fuel nl (cur ++ [c]) follow HL). rewrite <- app_assoc in IH.
+    apply IH; [discriminate | exact Ln].
+Qed.
+
+Lemma mkdir_all_creates_wd wd f mo f0 :
+  Inv0 wd f -> mkdir_all f (Nms wd) mo = Some f0 -> f0 = new_dir wd mo f.
+Proof.
+  intros I0 H. unfold mkdir_all in H.
+  pose proof (inv0_ne _ _ I0) as Hne.
+  rewrite (wd_snoc wd Hne) in H.
+  destruct (mkdir_prefixes_skip f mo (removelast wd) [] [last wd []]) as [E|E].
+  - simpl. exact (inv0_anc _ _ I0).
+  - simpl app in E. change (Nms []) with (@nil comp) in E. rewrite E in H.
+    cbn [Nms map mkdir_prefixes] in H. fold (Nms (removelast wd)) in H.
+    rewrite Nms_snoc, <- (wd_snoc wd Hne) in H.
+    assert (HL : lexreal f [] wd = true) by (apply lexreal_of_parent; exact (inv0_anc _ _ I0)).
+    assert (Ln : lookup f wd = None) by (apply (inv0_none _ _ I0); apply inside_refl).
+    pose proof (walk_at_none f wd FUEL NLINK [] true HL Hne Ln) as W1.
+    pose proof (walk_at_none f wd FUEL NLINK [] false HL Hne Ln) as W2.
+    assert (Hsecond : match walk FUEL f NLINK [] (Nms wd) false with
+                      | WNoEnt p => mkdir_prefixes (new_dir p mo f) (Nms wd) [] mo | _ => None end = Some f0 ->
+                      f0 = new_dir wd mo f).
+    { destruct (walk FUEL f NLINK [] (Nms wd) false) as [| | |q| |]; try contradiction; try discriminate.
+      simpl in W2. subst q. simpl. now intros [= <-]. }
+    destruct (walk FUEL f NLINK [] (Nms wd) true); try contradiction; apply Hsecond; exact H.
+  - simpl app in E. change (Nms []) with (@nil comp) in E. rewrite E in H. discriminate.
+Qed.
+
+Lemma ensure_write_dir_below0 wd f rel rawdir f1 :
+  PreInv wd f -> ensure_write_dir cfg_fixed wd f (wd ++ rel) rawdir = Some f1 ->
+  Keeps wd f f1 /\ RealD f1 [] (wd ++ rel).
+Proof.
+  intros [I|I0] H; [now apply (ensure_write_dir_below wd f rel rawdir f1 I)|].
+  unfold ensure_write_dir in H. cbn [fixN cfg_fixed] in H.
+  assert (SP : strip_prefix wd (wd ++ rel) = Some rel) by now apply strip_prefix_spec.
+  rewrite SP in H.
+  destruct (mkdir_all f (Nms wd) c11_write_dir_perm) as [f0|] eqn:M0; [|discriminate].
+  apply (mkdir_all_creates_wd wd f _ f0 I0) in M0. subst f0.
+  pose proof (create_wd wd f c11_write_dir_perm I0) as K0.
+  destruct (mkdir_real_lex wd _ rel wd _ f1 (proj1 K0) (inside_refl wd) (RealD_inv _ _ (proj1 K0)) H) as (K1 & R1 & _).
+  split; [eapply Keeps_trans; eauto | exact R1].
+Qed.
+
+(* no title denotes the (missing) working directory itself *)
+Definition title_ok (wd : path) (t : str) : Prop := t = [] \/ lex_loc wd t <> wd.
+
+Definition op_ok (wd : path) (o : pushop) : Prop :=
+  match o with
+  | PBlob t _ => title_ok wd t
+  | PDir t _ _ => title_ok wd t
+  | PDirF _ t _ _ => title_ok wd t
+  | PManifest ls => Forall (fun l => title_ok wd (fst l)) ls
+  end.
+
+Lemma push_blob_keeps0 wd s title w good s' ok :
+  PreInv wd (st_fs s) -> lex_loc wd title <> wd ->
+  push_blob cfg_fixed wd s title w good = (s', ok) ->
+  Keeps0 wd (st_fs s) (st_fs s').
+Proof.
+  intros I Hcw H. unfold push_blob in H.
+  destruct (existsb (str_eqb title) (st_names s)).
+  { injection H as <- _. now apply Keeps0_refl. }
+  destruct (write_path cfg_fixed wd title) as [raw|] eqn:EW.
+  2:{ injection H as <- _. now apply Keeps0_refl. }
+  pose proof (write_path_lex _ _ _ _ EW) as [_ Ecl].
+  destruct (write_path_fixed _ _ _ EW) as (cl & -> & Hcl).
+  rewrite clean_abs_names in Ecl. rewrite <- Ecl in Hcw. clear Ecl.
+  cbn [fixW cfg_fixed] in H.
+  rewrite removelast_Nms, !clean_abs_names in H.
+  destruct (strip_prefix wd (removelast cl)) as [rel|] eqn:SP.
+  2:{ destruct (parent_outside wd cl Hcl SP) as [E _]. contradiction. }
+  apply strip_prefix_spec in SP. rewrite SP in H.
+  destruct (ensure_write_dir cfg_fixed wd (st_fs s) (wd ++ rel) (Nms (wd ++ rel))) as [f1|] eqn:M.
+  2:{ injection H as <- _. now apply Keeps0_refl. }
+  destruct (ensure_write_dir_below0 wd _ rel _ f1 I M) as (K1 & R1).
+  rewrite <- SP in R1.
+  pose proof (lexreal_of_parent _ _ R1) as HL1.
+  rewrite (path_eqb_neq cl wd Hcw) in H. cbn [negb andb] in H.
+  destruct (unlink_if_symlink f1 cl) as [f1'|] eqn:U.
+  2:{ injection H as <- _. now apply Keeps_Keeps0. }
+  destruct (unlink_if_lex wd cl f1 f1' (proj1 K1) Hcl HL1 U) as (K2 & O2 & N2).
+  assert (K12 : Keeps wd (st_fs s) f1') by (eapply Keeps_trans; eauto).
+  assert (HL2 : lexreal f1' [] cl = true) by (rewrite (lexreal_only_at _ _ _ O2); exact HL1).
+  destruct (write_at f1' (Nms cl) w 438) as [f2|] eqn:Wr.
+  - destruct (write_at_lex wd cl w 438 f1' f2 (proj1 K2) Hcl HL2 N2 Wr) as (K3 & O3 & (i3 & L3)).
+    assert (K13 : Keeps wd (st_fs s) f2) by (eapply Keeps_trans; eauto).
+    destruct good; [injection H as <- _; now apply Keeps_Keeps0|].
+    destruct (remove_at f2 cl) as [f3|] eqn:Rm; injection H as <- _; [|now apply Keeps_Keeps0]. simpl.
+    assert (Hne : cl <> []).
+    { intros ->. rewrite (write_at_real f1' [] w 438) in Wr; [discriminate|].
+      intros q r E Hq. destruct q; [contradiction | discriminate]. }
+    assert (Hs : sinside wd cl) by (eapply inside_sinside; [exact (proj1 K3) | exact Hcl | exact Hne | rewrite L3; discriminate]).
+    assert (HL3 : lexreal f2 [] cl = true) by (rewrite (lexreal_only_at _ _ _ O3); exact HL2).
+    destruct (remove_at_lex wd cl f2 f3 (proj1 K3) Hs HL3 Rm) as (_ & K4 & _).
+    apply Keeps_Keeps0. eapply Keeps_trans; eauto.
+  - injection H as <- _. now apply Keeps_Keeps0.
+Qed.
+
+Lemma push_dir_keeps0 wd pres cwd s title ts es how s' ok :
+  PreInv wd (st_fs s) ->
+  push_dir cfg_fixed pres wd cwd s title ts es how = (s', ok) ->
+  Keeps0 wd (st_fs s) (st_fs s').
+Proof.
+  intros I H. unfold push_dir in H.
+  destruct (existsb (str_eqb title) (st_names s)).
+  { injection H as <- _. now apply Keeps0_refl. }
+  destruct (write_path cfg_fixed wd title) as [raw|] eqn:EW.
+  2:{ injection H as <- _. now apply Keeps0_refl. }
+  destruct (write_path_fixed _ _ _ EW) as (cl & -> & Hcl).
+  rewrite clean_abs_names in H.
+  destruct (strip_prefix wd cl) as [rel|] eqn:SP.
+  2:{ unfold inside in Hcl. rewrite SP in Hcl. discriminate. }
+  apply strip_prefix_spec in SP. subst cl.
+  destruct (ensure_write_dir cfg_fixed wd (st_fs s) (wd ++ rel) (Nms (wd ++ rel))) as [f1|] eqn:M.
+  2:{ injection H as <- _. now apply Keeps0_refl. }
+  destruct (ensure_write_dir_below0 wd _ rel _ f1 I M) as (K1 & R1).
+  destruct (how =? 1)%N; [injection H as <- _; now apply Keeps_Keeps0|].
+  destruct (extract cfg_fixed pres cwd (wd ++ rel) title f1 es ts [] (how =? 2)%N) as [f2 ok2] eqn:EX.
+  injection H as <- _. simpl. apply Keeps_Keeps0.
+  eapply Keeps_trans; [exact K1|].
+  apply (extract_keeps wd pres cwd (wd ++ rel) title _ es f1 f2 ok2 ts [] (proj1 K1) Hcl R1 (Forall_nil _) (Forall_nil _) EX).
+Qed.
+
+Lemma restore_layers_keeps0 wd : forall layers s s' ok,
+  PreInv wd (st_fs s) -> Forall (fun l => title_ok wd (fst l)) layers ->
+  restore_layers cfg_fixed wd s layers = (s', ok) ->
+  Keeps0 wd (st_fs s) (st_fs s').
+Proof.
+  induction layers as [|[t c] r IH]; intros s s' ok I Hok H.
+  - injection H as <- _. now apply Keeps0_refl.
+  - cbn [restore_layers] in H. inversion Hok as [|? ? Ht Hr]; subst. simpl in Ht.
+    destruct t as [|t0 tt]; [now apply (IH s s' ok)|].
+    destruct (existsb (str_eqb (t0 :: tt)) (st_names s)); [now apply (IH s s' ok)|].
+    destruct (fetch s c) as [| |c']; [now apply (IH s s' ok) | injection H as <- _; now apply Keeps0_refl |].
+    destruct (push_blob cfg_fixed wd s (t0 :: tt) c' ((c' =? c)%N && negb (c =? 0)%N)) as [s1 ok1] eqn:P.
+    assert (Hcw : lex_loc wd (t0 :: tt) <> wd) by (destruct Ht as [E|E]; [discriminate | exact E]).
+    pose proof (push_blob_keeps0 _ _ _ _ _ _ _ I Hcw P) as K1.
+    destruct ok1.
+    + eapply Keeps0_trans; [exact K1|]. apply (IH s1 s' ok (proj1 K1) Hr H).
+    + injection H as <- _. exact K1.
+Qed.
+
+Lemma push_keeps0 wd pres cwd s o s' ok :
+  PreInv wd (st_fs s) -> op_ok wd o ->
+  push cfg_fixed pres wd cwd s o = (s', ok) ->
+  Keeps0 wd (st_fs s) (st_fs s').
+Proof.
+  intros I Hok H. unfold push in H. destruct o as [t c|t ts es|layers|how t ts es]; simpl in Hok.
+  - destruct t as [|t0 tt].
+    + destruct ((c =? 0)%N || existsb (str_eqb [0%N; c]) (st_names s)); injection H as <- _; now apply Keeps0_refl.
+    + destruct Hok as [E|E]; [discriminate|]. eapply push_blob_keeps0; eauto.
+  - destruct t as [|t0 tt].
+    + injection H as <- _. now apply Keeps0_refl.
+    + eapply push_dir_keeps0; eauto.
+  - destruct (existsb (str_eqb (manifest_marker layers)) (st_names s)).
+    + injection H as <- _. now apply Keeps0_refl.
+    + apply (restore_layers_keeps0 wd layers (mkStore (st_fs s) (manifest_marker layers :: st_names s) (st_d2p s)) s' ok I Hok H).
+  - destruct t as [|t0 tt].
+    + injection H as <- _. now apply Keeps0_refl.
+    + eapply push_dir_keeps0; eauto.
+Qed.
+
+Lemma pushes_keeps0 wd pres cwd : forall os s s' oks,
+  PreInv wd (st_fs s) -> Forall (op_ok wd) os ->
+  pushes cfg_fixed pres wd cwd s os = (s', oks) ->
+  Keeps0 wd (st_fs s) (st_fs s').
+Proof.
+  induction os as [|o os IH]; intros s s' oks I Hok H.
+  - injection H as <- _. now apply Keeps0_refl.
+  - cbn [pushes] in H. inversion Hok as [|? ? Ho Hos]; subst.
+    destruct (push cfg_fixed pres wd cwd s o) as [s1 ok] eqn:P.
+    destruct (pushes cfg_fixed pres wd cwd s1 os) as [s2 oks2] eqn:Ps.
+    injection H as <- _.
+    pose proof (push_keeps0 _ _ _ _ _ _ _ I Ho P) as K1.
+    eapply Keeps0_trans; [exact K1|]. eapply IH; eauto. exact (proj1 K1).
+Qed.
+
+(* the hypothesis is satisfiable: a tree in which the working directory does not exist yet *)
+Definition fs3 : fsys :=
+  mkFS [ ([b "r"], NDir); ([b "victim"], NFile 0) ] [ (0, 100%N) ] 1 [] [] [].
+
+Lemma inv0_fs3 : Inv0 wd0 fs3.
+Proof.
+  constructor.
+  - discriminate.
+  - intros q r E Hq. destruct q as [|q1 [|q2 q']]; [contradiction | |].
+    + injection E as <- _. reflexivity.
+    + apply (f_equal (@length _)) in E. simpl in E. rewrite app_length in E. simpl in E. lia.
+  - intros p Hp. apply inside_spec in Hp as [r ->]. reflexivity.
+  - intros p i H. change (nexti fs3) with 1. unfold lookup, fs3 in H. cbn [ents lookup_ents] in H.
+    repeat match type of H with
+           | (if ?c then _ else _) = _ =>
+             destruct c; [first [discriminate H | (injection H as H; subst i; lia)] |]
+           end. discriminate.
+Qed.
+
+Definition os_first_push : list pushop :=
+  [PBlob (b "../victim") 5%N; PDir (b "t") [] [EDir (b "t/a") 493%N; EReg (b "t/a/f") 7%N 420%N]; PBlob (b "x") 8%N].
+
+Lemma first_push_ok :
+  snd (pushes cfg_fixed false wd0 cwd0 (mkStore fs3 [] []) os_first_push) = [false; true; true] /\
+  lookup (st_fs (fst (pushes cfg_fixed false wd0 cwd0 (mkStore fs3 [] []) os_first_push))) wd0 = Some NDir /\
+  view_at (st_fs (fst (pushes cfg_fixed false wd0 cwd0 (mkStore fs3 [] []) os_first_push))) [b "victim"] = view_at fs3 [b "victim"].
+Proof. vm_compute. repeat split. Qed.
